@@ -115,17 +115,18 @@ def h_entry_point(g):
     dp.Fasta = lambda *a, **k: {"chr1": "ACGT" * 50}
     dp.ReadAssignmentAggregator = lambda *a, **k: agg
     dp.ReadAssignmentLoader = FakeLoader
-    old = gbmc.GraphBasedModelConstructor.detected_known_isoforms
-    gbmc.GraphBasedModelConstructor.detected_known_isoforms = set(prior)
+    old = flblock.get_reported()
+    flblock.set_reported(set(prior))
     try:
         args = Obj(no_model_construction=False, reference="ref.fa", fai_file_name=None, resume=False, genedb=None, check_canonical=False,
                    sqanti_output=False)
         sample = Obj(out_dir=d, prefix="smp", out_t2t_tsv=os.path.join(d, "t2t.tsv"))
         call(g, dp.construct_models_in_parallel, sample, "chr1", dump, args, ["NA"])
-        state = set(gbmc.GraphBasedModelConstructor.detected_known_isoforms)
+        state = flblock.get_reported()
+        state = set() if state is flblock._MISSING else set(state)          # a class without such state has nothing to carry over
     finally:
         dp.Fasta, dp.ReadAssignmentAggregator, dp.ReadAssignmentLoader = saved
-        gbmc.GraphBasedModelConstructor.detected_known_isoforms = old
+        flblock.set_reported(old)
     g.check(state == set(), "a chromosome run starts with an empty set of already reported known isoforms, whatever ran before",
             detail={"prior": sorted(prior), "after_entry": sorted(state)})
 
@@ -158,7 +159,7 @@ def h_id_storage_fresh(g):
     dp.ReadAssignmentLoader = FakeLoader
     dp.GFFPrinter = RecordingPrinter
     RecordingPrinter.seen = []
-    old = gbmc.GraphBasedModelConstructor.detected_known_isoforms
+    old = flblock.get_reported()
     try:
         args = Obj(no_model_construction=False, reference="ref.fa", fai_file_name=None, resume=False, genedb=None, check_canonical=False,
                    sqanti_output=False)
@@ -170,7 +171,7 @@ def h_id_storage_fresh(g):
             call(g, dp.construct_models_in_parallel, sample, chr_id, dump, args, ["NA"])
     finally:
         dp.Fasta, dp.ReadAssignmentAggregator, dp.ReadAssignmentLoader, dp.GFFPrinter = saved
-        gbmc.GraphBasedModelConstructor.detected_known_isoforms = old
+        flblock.set_reported(old)
     seen = RecordingPrinter.seen
     g.check(len(seen) == 2, "each chromosome run builds its transcript printer")
     if len(seen) == 2:
@@ -187,8 +188,8 @@ def h_known_isoform_reported(g):
     count = g.int("path_read_count", 0, 20)
     gi = Obj(chr_id="chr1", gene_strands={"G": "+"}, empty=lambda: False, all_isoforms_introns={"REF1": introns}, isoform_strands={"REF1": "+"},
              gene_id_map={"REF1": "G"}, all_isoforms_exons={"REF1": [(1, 10), (31, 40), (61, 100)]}, other_features={"REF1": []}, sources={"REF1": "x", "G": "x"})
-    old = gbmc.GraphBasedModelConstructor.detected_known_isoforms
-    gbmc.GraphBasedModelConstructor.detected_known_isoforms = set()
+    old = flblock.get_reported()
+    flblock.set_reported(set())
     try:
         out = []
         for rep in range(2):
@@ -198,7 +199,7 @@ def h_known_isoform_reported(g):
             call(g, c.construct_fl_isoforms)
             out.append([m.transcript_id for m in c.transcript_model_storage])
     finally:
-        gbmc.GraphBasedModelConstructor.detected_known_isoforms = old
+        flblock.set_reported(old)
     g.check(IMPLIES(count >= 1, out[0] == ["REF1"]) if not isinstance(count >= 1, bool) or count >= 1 else True,
             "a known isoform with a supporting full-length path is reported")
     g.check(out[1] == [] or out[0] == [], "within one chromosome run a known isoform is reported once")
